@@ -119,6 +119,9 @@ func Expect(sp *spec.Spec, t *spec.Type, sent any, locOf func(string) valgen.Loc
 			out[k] = Expect(sp, rt.Elem.Type, e, nil, nil, depth+1)
 		}
 		return vtree.MkMap(out)
+	case spec.Union:
+		// the same alternative, holding what its own type makes of the value (union.go)
+		return expectUnion(sp, rt, sent, depth)
 	}
 	return sent
 }
@@ -176,7 +179,7 @@ func locName(l valgen.Loc) string {
 func topAttr(path string) string {
 	p := strings.TrimPrefix(path, ".")
 	for i, r := range p {
-		if r == '.' || r == '[' || r == '{' {
+		if r == '.' || r == '[' || r == '{' || r == '|' {
 			return p[:i]
 		}
 	}
@@ -206,6 +209,8 @@ func kindOf(sp *spec.Spec, t *spec.Type) string {
 
 func diffClass(d vtree.D) string {
 	switch {
+	case strings.HasSuffix(d.Path, ".$union"):
+		return "other-alternative" // a union arrived holding another alternative than the one sent
 	case d.Want == nil || valClass(d.Want) == "absent":
 		return "spurious"
 	case d.Got == nil:
@@ -345,7 +350,13 @@ func c02Request(sp *spec.Spec, ex *rt.Exchange) *Verdict {
 		if strings.Count(d.Path, ".")+strings.Count(d.Path, "[")+strings.Count(d.Path, "{") > 1 {
 			nested = ":nested"
 		}
-		v.add(mkKey("mismatch", "payload-mismatch", fmt.Sprintf("%s:%s%s:%s:%s", loc, kind, nested, diffClass(d), valClass(d.Want)), Explain(sp, m, ex.Case.Sent)), "payload attribute differs at %s", d.String())
+		tags := Explain(sp, m, ex.Case.Sent)
+		if ex.Case.Raw != nil && strings.Contains(d.Path, ".$value.") {
+			// a hand-encoded request spells the members of a user type alternative by their design names inside the
+			// union's Value text (union.go): the difference lies inside such a value
+			tags = append(tags, "union-usertype-value-design-names")
+		}
+		v.add(mkKey("mismatch", "payload-mismatch", fmt.Sprintf("%s:%s%s:%s:%s", loc, kind, nested, diffClass(d), valClass(d.Want)), tags), "payload attribute differs at %s", d.String())
 	}
 	return v
 }
@@ -620,6 +631,12 @@ func Explain(sp *spec.Spec, m *spec.Method, sent any) []string {
 		if strings.HasPrefix(h.Body, "attr:") && so != nil {
 			if _, ok := so[strings.TrimPrefix(h.Body, "attr:")]; !ok {
 				tags["body-attr-absent"] = true
+			}
+		}
+		if strings.HasPrefix(h.Body, "attr:") && prt.Kind == spec.Object {
+			if a := prt.Attr(strings.TrimPrefix(h.Body, "attr:")); a != nil && a.Type.Kind == spec.Union {
+				// Body("x") with x a OneOf attribute: neither generated half moves the union between payload and body (listed finding)
+				tags["body-is-union"] = true
 			}
 		}
 		// a required map-typed query parameter is absent while the query string carries other parameters: the
